@@ -184,9 +184,11 @@ Definition clear_rtl (o : Z) : Z := Z.ldiff o PL_RightToLeft.
 (* at.Options & (RightToLeft | IgnoreCase) *)
 Definition li_mask (o : Z) : Z := Z.land o (PL_RightToLeft + PL_IgnoreCase).
 
-(* []rune(strings.Repeat(string(ch), k)): the conversion string(rune) writes U+FFFD for a surrogate
-   or out-of-range value (tree.go:741, 1897) *)
-Definition repeat_rune (ch : Z) (k : Z) : list Z := repeat (write_rune ch) (Z.to_nat k).
+(* slices.Repeat([]rune{ch}, k) (tree.go:741, 1897; since ff89b8d).  Before that fix both sites wrote
+   []rune(strings.Repeat(string(ch), k)), and the conversion string(rune) turns a surrogate into U+FFFD:
+   `\x{D800}{2}` became a Multi of two U+FFFD ([repeat_rune_old], kept for the witness in Properties/C10.v). *)
+Definition repeat_rune (ch : Z) (k : Z) : list Z := repeat ch (Z.to_nat k).
+Definition repeat_rune_old (ch : Z) (k : Z) : list Z := repeat (write_rune ch) (Z.to_nat k).
 
 (* ---------------------------------------------------------------- constant classes (charclass.go:52-74) *)
 Definition pp_any_class : cls := Cls [(0, max_rune)] [] None false true None.
@@ -211,9 +213,11 @@ Fixpoint range_span (rs : list (Z * Z)) : Z :=
   | [] => 0
   | (a, b) :: t => (if a <=? b then b - a + 1 else 0) + range_span t
   end.
+(* what addCaseEquivalences walks: the ranges of the set (nothing when the set is "anything") and of
+   the subtracted sets *)
 Fixpoint cls_span (c : cls) : Z :=
   match c with
-  | Cls rs _ sb _ _ _ => range_span rs + match sb with Some s => cls_span s | None => 0 end
+  | Cls rs _ sb _ an _ => (if an then 0 else range_span rs) + match sb with Some s => cls_span s | None => 0 end
   end.
 
 Section Parser.
